@@ -11,7 +11,7 @@ HERE = os.path.dirname(os.path.dirname(os.path.abspath(__file__)))
 TECH = "contract-based deductive verification: Verus obligations on functions extracted mechanically from /repo every run"
 
 CLAIMS = {
-    "C01": ("narrow: the five anchored mechanisms as function-level obligations for all inputs - read resolution to the latest preceding writer else backing state (U12 storage/code_by_address/basic), read-set validation against version and estimate flag (U04 validate), estimate marking / validation rewinds after every (re-)execution (U04 execute_task), contiguous finality gated by status, cursor and timestamp (U04 lock_finality_candidate/run_finality_loop), ordered commit (U05, U04 run_commit_loop). The end-to-end equality with stock revm over all programs x schedules is NOT decided.",
+    "C01": ("narrow: the anchored mechanisms as function-level obligations for all inputs - read resolution to the latest preceding writer else backing state (U12 storage/code_by_address/basic), write publication of every required location with its value and estimate flag (U13 publish_writes/finish_incarnation), one incarnation lifecycle begin/set_tx/run/finalize/finish-or-discard (U27), read-set validation against version and estimate flag (U04 validate), estimate marking / validation rewinds after every (re-)execution (U04 execute_task), contiguous finality gated by status, cursor and timestamp (U04 lock_finality_candidate/run_finality_loop), ordered commit (U05, U04 run_commit_loop). The end-to-end equality with stock revm over all programs x schedules is NOT decided.",
             "revm and the bundle builder are assumed dependencies; composition of the per-function facts across worker/finality/commit threads is a paper argument (DESIGN.md section 6)"),
     "C02": ("per-function obligations: each commit appends exactly one state and one outcome at boundary len+1 or nothing (U05); the commit loop calls commit with txid == outcomes so far, publishes only after apply, releases dependents only after publishing (U04 run_commit_loop); a transaction becomes Unconfirmed only if every read is currently valid with a stamp taken before the scan (U04 validate); every (re-)execution issues the rewind that re-validates successors (U04 execute_task); finality gate and no-skip (U04); rewind stamp published before the index becomes claimable (U03).",
             "composition across the three kinds of threads is on paper; atomics/locks are stand-ins with rely/guarantee and lock-scoped specs"),
@@ -19,20 +19,20 @@ CLAIMS = {
             "that revm's validation is the reference is assumed; the replay closure body (EVM driving) is a stub"),
     "C04": ("narrow: on a fatal replay error the outcomes are exactly the first k-start and the error carries index k (U06); a database fault at commit returns Err(txid) and appends nothing (U05, U04 run_commit_loop E3); a fatal abort is requested only by an attempt that observes itself at the commit head (U04 X5). The sentence about failures seen only by stale speculative attempts is not decidable here (DESIGN.md section 8, F2).",
             "post_execute (nested closures over OnceLock) is not extracted"),
-    "C07": ("per-function obligations: reward formula and fork rule against a transcribed oracle of upstream's formula (U09), checked-add / materialise-only-by-non-zero-credit / fields preserved (U08), credited exactly once at commit, touched, absent from the speculative state (U05 E8), incarnation-guarded record/invalidate and origin-chain scan (U10), journal account classification (U11), beneficiary reads resolve through the history and never through the mutable cache (U12 basic E2).",
+    "C07": ("per-function obligations: reward formula and fork rule against a transcribed oracle of upstream's formula (U08 from_gas), the defer/immediate decision incl. zero reward still running revm's hook and deferral only when the beneficiary is not in the journal (U08 BeneficiaryMode::apply), checked-add / materialise-only-by-non-zero-credit / fields preserved (U08 apply_to), credited exactly once at commit, touched, absent from the speculative state (U05 E8), incarnation-guarded record/invalidate, origin-chain scan and whole-chain validation (U10), exact vs estimate publication per attempt (U04 execute_task X8), journal account classification (U11), beneficiary reads resolve through the history and never through the mutable cache (U12 basic E2).",
             "HistoryScan::resolve fold and concurrent record/resolve races are not covered"),
-    "C08": ("per-function obligations: journal account classification as a total decision table (U11); storage() returns the newest of reset marker and slot version, a reset masks the backing store, the same-transaction created slot wins over its own reset, both locations recorded, estimates block (U12).",
+    "C08": ("per-function obligations: journal account classification as a total decision table (U11); storage() returns the newest of reset marker and slot version, a reset masks the backing store, the same-transaction created slot wins over its own reset, both locations recorded, estimates block (U12); deletion and creation publish a reset marker that is part of the write set, deleted accounts publish an absent Basic value, changed slots publish their present value (U13); cached-account destroy operations equal revm's source (U14).",
             "commit-side cache clearing (apply_account_state, iterator chains) and revm's fork-specific finalisation are not covered"),
-    "C09": ("per-function obligations: basic() resolves basic fields and code separately (latest preceding Basic version / latest preceding Code version else backing store by hash) and records both locations; code_by_address as specified (U12).",
-            "EIP-7702 authorisation/nonce rules are revm's; publish_writes' code_changed rule only if U13 verifies"),
-    "C10": ("narrow: CacheAccountInfo::{selfdestruct,touch_empty_eip161} proved against one common contract that revm-database's own source text also satisfies (U14).",
+    "C09": ("per-function obligations: basic() resolves basic fields and code separately (latest preceding Basic version / latest preceding Code version else backing store by hash) and records both locations; code_by_address as specified (U12); a Code version (in the write set, with the new code) and a Basic version are published whenever the post-state code hash differs from the hash read (U13 code_changed rule).",
+            "EIP-7702 authorisation/nonce rules are revm's"),
+    "C10": ("narrow: CacheAccountInfo::{selfdestruct,touch_empty_eip161} proved against one common contract that revm-database's own source text also satisfies (U14); the shared read view serves exactly what the cache holds after one atomic insert-if-absent step and never overwrites an entry (U15 db_basic/db_storage/db_code_by_hash/load_mut_cache_account).",
             "bundle builder (rayon), increment/drain/change/newly_created, concurrent cache filling (finding F1) are not covered"),
-    "C11": ("narrow (last sentence of the statement): mutations in a static context are refused before any change; a recorded fault is sticky and takes effect (U17 facade).",
+    "C11": ("narrow (last sentence of the statement and the installation path): mutations in a static context are refused before any change; a recorded fault is sticky (U17 facade) and overrides whatever the implementation returns in the alloy adapter (U17 to_alloy); both EVM construction paths register the same custom precompiles in order (U21 build_evm).",
             "conflict detection of facade accesses end-to-end needs revm's journal and is not covered"),
-    "C12": ("per-function obligations: policy inert before Prague, exact otherwise (U19); the guard halts exactly when the frame's target carries a designator, static / pre-Petersburg errors keep upstream's order, otherwise it IS upstream create (U20).",
+    "C12": ("per-function obligations: policy inert before Prague, exact otherwise (U19 for_spec); the guard halts exactly when the frame's TARGET carries a designator, static / pre-Petersburg errors keep upstream's order, otherwise it IS upstream create after one host call (U19 guarded_create); the instruction table is revm's with exactly CREATE and CREATE2 replaced by the two guard instantiations, and it is swapped in iff the guard is on and the fork is Prague or later (U21).",
             "bit-identical behaviour of every other opcode rests on revm (assumed)"),
-    "C13": ("per-function obligations: required_after = suffix strictly after txid (U22), both paths query with the logical txid (U06 call permission), violation iff some surviving delegated debit has final < min(before, future) (U24); build_schedule's saturating suffix sums are a bounded Kani stand-in (labelled bounded).",
-            "delegated_debits_since (revm journal) and the revert/re-charge sequence are not covered"),
+    "C13": ("per-function obligations: required_after = suffix strictly after txid (U22), both paths query with the logical txid (U06 call permission, U27 execute_incarnation), violation iff some surviving delegated debit has final < min(before, future) (U24 has_reserve_violation), the charged-revert sequence revert/re-bump create nonce/refund/floor/reimburse resp. commit, in revm's post-execution order (U24 enforce_reserve, pre/post_execution); build_schedule's saturating suffix sums and the journal scan (delegated_debits_since, balance_before_entry) are bounded Kani stand-ins (labelled bounded).",
+            "revm's journal and handler default steps are stand-ins; the bounded parts are not proofs"),
     "C14": ("per-function obligations: a non-elected call returns the 'only once' error and has no permission to reach either execution path; all three public entry points go through run_once (U06).",
             "uniqueness of a successful CAS on the never-reset flag is an assumed contract of the atomic; the take_result_and_state sentence is not decided"),
     "C15": ("per-function obligations for all interference: no index at or beyond the limit handed out, the only cursor writes are CAS c->c+1 and fetch_min (U01); the frontier never passes a transaction that has not completed an execution (U03 ExecutionFrontier); rewind publishes its stamp before making the index claimable (U03); stale validations fail the finality gate (U04). Lemma L1 and a bounded sequential Kani part complement it.",
